@@ -191,11 +191,10 @@ impl<'a, D: DependencyProvider> Encoder<'a, D> {
 
         // Add clauses for externally excluded candidates.
         for &(solvable, reason) in &package_candidates.excluded {
-            let variable = self.add_exclusion_clause(solvable.into(), reason);
-            debug_assert!(
-                self.state.decision_tracker.assigned_value(variable) != Some(true),
-                "it cannot be possible that the excluded candidate is already uninstallable"
-            )
+            // If the excluded candidate has already been selected (e.g. a soft
+            // requirement whose package is only requested later on) the clause
+            // has been recorded as conflicting by `add_exclusion_clause`.
+            self.add_exclusion_clause(solvable.into(), reason);
         }
     }
 
